@@ -184,6 +184,10 @@ def build(variant="plain", tools=None, quiet=False):
     out = variant_dir(variant)
     stamp = os.path.join(out, ".done")
     if os.path.exists(stamp):
+        try:
+            os.utime(os.path.dirname(out), None)     # "in use": keeps prune_trees away from it
+        except OSError:
+            pass
         return out
     os.makedirs(out, exist_ok=True)
     lock = open(os.path.join(out, ".lock"), "w")
@@ -272,12 +276,16 @@ def build_server(variant, name):
         lock.close()
 
 
-def prune_trees(keep=4):
+def prune_trees(keep=6, min_age=6 * 3600):
+    """Drop old tool trees: never one of the `keep` most recent, never one used in the last `min_age` seconds
+    (another check may still be running from it)."""
     try:
         ds = [os.path.join(TREES, d) for d in os.listdir(TREES)]
         ds.sort(key=lambda d: os.path.getmtime(d), reverse=True)
+        now = time.time()
         for d in ds[keep:]:
-            shutil.rmtree(d, ignore_errors=True)
+            if now - os.path.getmtime(d) > min_age:
+                shutil.rmtree(d, ignore_errors=True)
         # bound the object cache: drop objects not used for 2 days when large
         objs = [os.path.join(OBJCACHE, f) for f in os.listdir(OBJCACHE)]
         if len(objs) > 1500:
